@@ -47,12 +47,6 @@ impl<I, D: Data<Elem = A>, A: Float> AffFuncBase<I, D> {
 }
 
 // ---------------------------------------------------------------- specification
-// both trees denote the same partial function on inputs of the tree's dimension
-#[verifier::opaque]
-pub open spec fn same_denotation<const K: usize>(a0: AArena<K>, a1: AArena<K>, root: usize, in_dim: usize) -> bool {
-    forall|h0: Map<usize, nat>, h1: Map<usize, nat>, x: V| #![trigger tree_fn(a0, h0, root, x), tree_fn(a1, h1, root, x)]
-        ranked_down(a0, h0) && ranked_down(a1, h1) && x.len() == in_dim ==> tree_fn(a1, h1, root, x) == tree_fn(a0, h0, root, x)
-}
 // one merge: decision p (below g at slot gl) with the terminal children l (slot 0) and r (slot 1) is replaced by l
 pub open spec fn merge_step<const K: usize>(a0: AArena<K>, a1: AArena<K>, p: usize, l: usize, r: usize, g: usize, gl: int) -> bool {
     &&& a0.dom().contains(p) && a0.dom().contains(l) && a0.dom().contains(r) && a0.dom().contains(g) && l != r && p != l && p != r && g != p && g != l && g != r
@@ -216,33 +210,6 @@ pub proof fn lemma_reduce_step(a_old: AArena<2>, a0: AArena<2>, am: AArena<2>, a
     }
     assert(a0.dom().remove(p).len() == a0.dom().len() - 1);
     assert(a0.dom().remove(p).remove(r).len() == a0.dom().len() - 2);
-}
-
-pub proof fn lemma_same_denotation_refl<const K: usize>(a: AArena<K>, root: usize, in_dim: usize)
-    requires kids_ok(a), a.dom().contains(root)
-    ensures same_denotation(a, a, root, in_dim)
-{
-    reveal(same_denotation);
-    assert forall|h0: Map<usize, nat>, h1: Map<usize, nat>, x: V| #![trigger tree_fn(a, h0, root, x), tree_fn(a, h1, root, x)]
-        ranked_down(a, h0) && ranked_down(a, h1) implies tree_fn(a, h1, root, x) == tree_fn(a, h0, root, x) by {
-        lemma_tree_fn_rank_indep(a, h0, h1, root, x);
-    }
-}
-// the denoted value does not depend on which height map witnesses acyclicity
-pub proof fn lemma_tree_fn_rank_indep<const K: usize>(a: AArena<K>, h0: Map<usize, nat>, h1: Map<usize, nat>, idx: usize, x: V)
-    requires ranked_down(a, h0), ranked_down(a, h1), kids_ok(a), a.dom().contains(idx)
-    ensures tree_fn(a, h1, idx, x) == tree_fn(a, h0, idx, x)
-    decreases h0[idx]
-{
-    let nd = a[idx];
-    if !nd.isleaf {
-        let l = decide(&nd.value.aff, x);
-        if 0 <= l < K && nd.children[l].is_some() {
-            assert(h0[nd.children[l].unwrap()] < h0[idx]);
-            assert(h1[nd.children[l].unwrap()] < h1[idx]);
-            lemma_tree_fn_rank_indep(a, h0, h1, nd.children[l].unwrap(), x);
-        }
-    }
 }
 
 impl AffTree<2> {
